@@ -5,7 +5,12 @@ import KrakenModel.Model.Handout
 
    cfg limit=<int> policy=<default|completeness> origins=<info,…|->
    op ann h<i> p<j> ip<k> <port> <complete> <origin-flag> <v1|v2> => 200 <ordered peers> | 500 | <status>
-   peers are `p<j>:ip<k>:<port>:<origin>:<complete>`; origin peers are named `o<j>` (id 100+j). -/
+   op sann h<i> p<j> ip<k> <port> <complete> <origin-flag> <v1|v2> <peers> => …   the same request against a stub
+        peer store whose GetPeers answers with the scripted <peers> (any ids, endpoints, duplicates)
+   peers are `p<j>:ip<k>:<port>:<origin>:<complete>`; origin peers are named `o<j>` (id 100+j).
+   machine `pp` (peerhandoutpolicy, in-package):
+   one prio <policy> <origin> <complete> => <priority>
+   one sort <policy> <src> <peers> => <ordered result of SortPeers> -/
 open Driver KrakenModel.PeerStore KrakenModel.Handout
 
 namespace C26
@@ -57,36 +62,46 @@ def nodupIds (l : List Info) : Bool := (l.map (·.id)).eraseDups.length = l.leng
 
 def sameSet (a b : List Info) : Bool := a.length = b.length ∧ a.all (· ∈ b) ∧ b.all (· ∈ a)
 
-/-- is `out` a possible response body for an incomplete announcer `src`, given the stored peers? -/
+def permOf (a b : List Info) : Bool := a.length = b.length ∧ a.all (fun x => a.count x = b.count x)
+
+/-- is `out` a possible result of `SortPeers(src, peers ++ origins)`? -/
+def admissibleFor (pol : Policy) (src : Info) (peers origins out : List Info) : Bool :=
+  permOf out (candidates src peers origins) ∧ decide (Sorted pol out)
+
+/-- is `out` a possible response body for an incomplete announcer `src`, given the stored peers and
+the limit? When the limit cuts the store's answer the pick is random: necessary conditions only. -/
 def admissible (pol : Policy) (limit : Int) (stored : List Info) (origins : List Info) (src : Info)
     (out : List Info) : Bool :=
-  let agents := out.filter (fun x => !x.origin)
-  let orig := out.filter (fun x => x.origin)
   let m := takeCount stored.length limit
-  let lenOk := if m = stored.length then
-      -- everything stored is picked; the announcer is stored (it has just announced) and dropped
-      agents.length + (if stored.any (·.id = src.id) then 1 else 0) = stored.length
-    else agents.length = m ∨ (m ≥ 1 ∧ agents.length + 1 = m ∧ stored.any (·.id = src.id))
-  nodupIds out ∧ sameSet orig (origins.filter (fun o => o.id ≠ src.id)) ∧
-  agents.all (fun x => x ∈ stored) ∧ agents.all (fun x => x.id ≠ src.id) ∧ lenOk ∧
-  decide (Sorted pol out)
+  if m = stored.length then admissibleFor pol src stored origins out
+  else
+    let originIds := origins.map (·.id)
+    let nonOrigin := out.filter (fun x => x.id ∉ originIds)
+    let overlap := (stored.filter (fun x => x.id ∈ originIds)).length
+    nodupIds out ∧ decide (Sorted pol out) ∧ out.all (fun x => x ∈ stored ∨ x ∈ origins) ∧
+    out.all (fun x => x.id ≠ src.id) ∧
+    (originIds.all (fun i => i = src.id ∨ out.any (·.id = i))) ∧
+    nonOrigin.length ≤ m ∧ m ≤ nonOrigin.length + 1 + overlap
 
-def monitor (s : St) (h : Nat) (src : Info) (out : List Info) : List String :=
+/-- predicates of the property on a response; `known` = what the stores hold (none: scripted store) -/
+def monitor (s : St) (h : Nat) (src : Info) (out : List Info) (scripted : Option (List Info)) : List String :=
   let lim := max (effLimit s.limit) 0
-  let agents := out.filter (fun x => !x.origin)
+  let originIds := s.origins.map (·.id)
+  let agents := out.filter (fun x => x.id ∉ originIds)
   (if out.any (·.id = src.id) then
     [s!"side=impl key=announcer-in-handout announce of {infoTok src} for h{h} was answered with the announcer itself: {out.map infoTok}"] else []) ++
-  (if !nodupIds out then [s!"side=impl key=duplicate-peer handout lists a peer twice: {out.map infoTok}"] else []) ++
-  (if (agents.length : Int) > lim ∨ (out.length : Int) > lim + s.origins.length then
+  (if !nodupIds out then [s!"side=impl key=duplicate-peer handout lists a peer id twice: {out.map infoTok}"] else []) ++
+  (if scripted.isNone ∧ ((agents.length : Int) > lim ∨ (out.length : Int) > lim + s.origins.length) then
     [s!"side=impl key=too-many handout of {out.length} peers ({agents.length} agents), limit {s.limit}, {s.origins.length} origins"] else []) ++
   (if src.complete ∧ !out.isEmpty then [s!"side=impl key=complete-nonempty completed announcer got {out.map infoTok}"] else []) ++
   (if !decide (Sorted s.pol out) then [s!"side=impl key=unsorted handout not ordered by priority: {out.map infoTok}"] else []) ++
   (out.filterMap fun x =>
-    if x.origin then
-      if x ∈ s.origins then none else some s!"side=impl key=unknown-peer handout lists origin {infoTok x} which the origin store does not have"
-    else match alook s.anns (h, x.id) with
-      | some a => if a = x then none else some s!"side=impl key=stale-announcement handout lists {infoTok x}, latest announcement is {infoTok a}"
-      | none => some s!"side=impl key=unknown-peer handout lists {infoTok x} which never announced for h{h}")
+    if x ∈ s.origins then none
+    else match scripted with
+      | some l => if x ∈ l then none else some s!"side=impl key=unknown-peer handout lists {infoTok x} which neither store returned"
+      | none => match alook s.anns (h, x.id) with
+        | some a => if a = x then none else some s!"side=impl key=stale-announcement handout lists {infoTok x}, latest announcement is {infoTok a}"
+        | none => some s!"side=impl key=unknown-peer handout lists {infoTok x} which never announced for h{h}")
 
 def step (s : St) (kind : String) (args impl : List String) : Option (St × StepOut) :=
   if kind ≠ "op" then none else
@@ -110,15 +125,16 @@ def step (s : St) (kind : String) (args impl : List String) : Option (St × Step
       | ["200", l] => infos? l
       | _ => none
     let pf := match implOut with
-      | some out => monitor s' h src out
+      | some out => monitor s' h src out none
       | none => []
     if c then
       some (s', { obs := ["200", "-"], branch := "ann.complete", propfails := pf })
     else if picked = 0 ∧ s.origins.isEmpty then
       some (s', { obs := ["500"], branch := "ann.no-peers", propfails := pf })
     else
-      let br := if picked < stored.length then "ann.handout.limited" else
-        if s.origins.isEmpty then "ann.handout.agents" else "ann.handout.with-origins"
+      let br := (if picked < stored.length then "ann.handout.limited" else
+        if s.origins.isEmpty then "ann.handout.agents" else "ann.handout.with-origins") ++
+        (if picked + s.origins.length ≥ 14 then ".13plus" else "")
       match implOut with
       | some out =>
         if admissible s.pol lim stored s.origins src out then
@@ -127,6 +143,35 @@ def step (s : St) (kind : String) (args impl : List String) : Option (St × Step
           let want := sortStable s.pol (candidates src stored s.origins)
           some (s', { obs := ["200", "inadmissible;one-admissible-answer:" ++ listTok (want.map infoTok)], branch := br, propfails := pf })
       | none => some (s', { obs := ["200", "<handout>"], branch := br, propfails := pf })
+  | ["sann", ht, pt, ipt, portt, ct, ot, vt, lt] => do
+    let h ← hashIdx? ht
+    let id ← peerId? pt
+    let ip ← ipIdx? ipt
+    let port ← portt.toNat?
+    let c ← bool? ct
+    let _o ← bool? ot
+    if vt ≠ "v1" ∧ vt ≠ "v2" then none else
+    let peers ← infos? lt
+    let src : Info := ⟨id, ip, port, false, c⟩
+    let implOut : Option (List Info) := match impl with
+      | ["200", l] => infos? l
+      | _ => none
+    let pf := match implOut with
+      | some out => monitor s h src out (some peers)
+      | none => []
+    let dupIn := !nodupIds (peers ++ s.origins)
+    let selfIn := (peers ++ s.origins).any (·.id = id)
+    let br := "sann" ++ (if c then ".complete" else "") ++ (if selfIn then ".announcer-listed" else "") ++ (if dupIn then ".duplicate-ids" else "") ++
+      (if (candidates src peers s.origins).length ≥ 13 then ".13plus" else "")
+    match respond src peers s.origins (sortStable s.pol (candidates src peers s.origins)) with
+    | .noPeers => some (s, { obs := ["500"], branch := "sann.no-peers", propfails := pf })
+    | .handout want =>
+      if c then some (s, { obs := ["200", "-"], branch := br, propfails := pf }) else
+      match implOut with
+      | some out =>
+        if admissibleFor s.pol src peers s.origins out then some (s, { obs := impl, branch := br, propfails := pf })
+        else some (s, { obs := ["200", "inadmissible;one-admissible-answer:" ++ listTok (want.map infoTok)], branch := br, propfails := pf })
+      | none => some (s, { obs := ["200", listTok (want.map infoTok)], branch := br, propfails := pf })
   | _ => none
 
 def init (cfg : List String) : Option St := do
@@ -141,11 +186,48 @@ def init (cfg : List String) : Option St := do
   let origins ← match kv? cfg "origins" with
     | some t => infos? t
     | none => some []
-  if origins.any (fun o => !o.origin ∨ o.id < 100) ∨ !nodupIds origins then none else
+  if origins.any (fun o => !o.origin) then none else
   pure { m := KrakenModel.PeerStore.init 1000000, limit, pol, origins }
 
 def machine : Machine := { σ := St, name := "ho", init := init, step := step }
 
+/-! ### peerhandoutpolicy in isolation -/
+
+def pol? (t : String) : Option Policy :=
+  if t = "completeness" then some .completeness else if t = "default" then some .default else none
+
+def ppStep (_ : Unit) (kind : String) (args impl : List String) : Option (Unit × StepOut) :=
+  if kind ≠ "one" then none else
+  match args with
+  | ["prio", pt, ot, ct] => do
+    let pol ← pol? pt
+    let o ← bool? ot
+    let c ← bool? ct
+    let want := prio pol ⟨0, 0, 0, o, c⟩
+    let pf := if impl ≠ [toString want] then
+      [s!"side=impl key=wrong-priority assignPriority({pt}, origin={ot}, complete={ct}) = {impl}, the configured order needs {want}"] else []
+    some ((), { obs := [toString want], branch := s!"prio.{pt}", propfails := pf })
+  | ["sort", pt, st, lt] => do
+    let pol ← pol? pt
+    let src ← info? st
+    let peers ← infos? lt
+    let out? := match impl with | [l] => infos? l | _ => none
+    let ms : St := { m := KrakenModel.PeerStore.init 1, limit := 0, pol := pol, origins := [] }
+    let pf := match out? with
+      | some out => monitor ms 0 { src with complete := false } out (some peers)  -- SortPeers itself does not short-circuit
+      | none => []
+    let want := sortStable pol (candidates src peers [])
+    let br := "sort" ++ (if want.length ≥ 13 then ".13plus" else "") ++ (if !nodupIds peers then ".duplicate-ids" else "") ++
+      (if peers.any (·.id = src.id) then ".announcer-listed" else "")
+    match out? with
+    | some out =>
+      if admissibleFor pol src peers [] out then some ((), { obs := impl, branch := br, propfails := pf })
+      else some ((), { obs := ["inadmissible;one-admissible-answer:" ++ listTok (want.map infoTok)], branch := br, propfails := pf })
+    | none => some ((), { obs := [listTok (want.map infoTok)], branch := br, propfails := pf })
+  | _ => none
+
+def ppMachine : Machine := { σ := Unit, name := "pp", init := fun _ => some (), step := ppStep }
+
 end C26
 
-def main (args : List String) : IO UInt32 := runMachines [C26.machine] args
+def main (args : List String) : IO UInt32 := runMachines [C26.machine, C26.ppMachine] args
